@@ -33,7 +33,7 @@ func init() { Register("crash", func() Domain { return &crashDom{} }) }
 var crashPoints = []string{"store.committed", "store.notified", "init.begin", "init.wrote", "init.marking", "index.task", "index.committed"}
 
 func genWorkload(r *gen.R) []string {
-	ids := []string{"1", "2", "s1"}
+	ids := []string{"1", "2", "s1", "s2", "s1"} // s1, s2 are also the ids Init seeds
 	n := 4 + r.Intn(5)
 	ops := []string{}
 	if r.Bool() {
